@@ -88,6 +88,9 @@ def _literal(e):
       and len(e.args) == 1 and not e.keywords and isinstance(
           e.args[0], (ast.Tuple, ast.List, ast.Set)):
     return all(_literal(x) for x in e.args[0].elts)
+  if isinstance(e, ast.Call) and ast.unparse(e.func) in (
+      'operator.attrgetter', 'operator.itemgetter') and e.args and not e.keywords:
+    return all(isinstance(x, ast.Constant) for x in e.args)    # immutable callables
   return False
 
 
@@ -344,9 +347,18 @@ def _strip_doc(body):
   return body
 
 
+def _is_static(fn):
+  return len(fn.decorator_list) == 1 and isinstance(fn.decorator_list[0], ast.Name) \
+      and fn.decorator_list[0].id == 'staticmethod'
+
+
 def eligible(fn, is_method):
   a = fn.args
-  if fn.decorator_list or a.vararg or a.kwarg or a.posonlyargs:
+  if is_method and _is_static(fn):
+    is_method = False          # no self: binds like a plain function
+  elif fn.decorator_list:
+    return False
+  if a.vararg or a.kwarg or a.posonlyargs:
     return False
   if _has(fn, (ast.Yield, ast.YieldFrom, ast.Await, ast.Global, ast.Nonlocal, ast.Lambda)):
     pass
@@ -595,6 +607,8 @@ def _simple(e):
     return _simple(e.value)
   if isinstance(e, ast.Tuple):
     return all(_simple(x) for x in e.elts)     # an immutable literal of pure reads
+  if isinstance(e, ast.Call) and _literal(e):
+    return True                                # attrgetter('a', 'b'): a constant
   return False
 
 
@@ -807,7 +821,7 @@ def _fold_constant_ifs(stmts):
   return out
 
 
-def view(fn, cls_node, module_tree, depth=3, keep=()):
+def view(fn, cls_node, module_tree, depth=3, keep=(), only=None):
   """A copy of `fn` in which calls of eligible private helpers (methods of its
   class through self, module-level functions) are expanded, known or new, and
   conditions that became constant are folded: what the function does, whichever
@@ -815,7 +829,7 @@ def view(fn, cls_node, module_tree, depth=3, keep=()):
   helpers_mod = {s.name: s for s in module_tree.body
                  if isinstance(s, ast.FunctionDef) and s.name.startswith('_')
                  and not s.name.startswith('__') and s is not fn and s.name not in keep
-                 and eligible(s, False)}
+                 and (only is None or s.name in only) and eligible(s, False)}
   helpers_cls = {}
   cname = None
   if cls_node is not None:
@@ -823,7 +837,8 @@ def view(fn, cls_node, module_tree, depth=3, keep=()):
     helpers_cls[cname] = {m.name: m for m in cls_node.body
                           if isinstance(m, ast.FunctionDef) and m.name.startswith('_')
                           and not m.name.startswith('__') and m is not fn
-                          and m.name not in keep and eligible(m, True)}
+                          and m.name not in keep and (only is None or m.name in only)
+                          and eligible(m, True)}
   f2 = copy.deepcopy(fn)
   inl = _Inliner(helpers_mod, helpers_cls)
   for _ in range(depth):
@@ -861,8 +876,13 @@ def _as_expression(fn):
           return copy.deepcopy(val)
         return n
     e = R().visit(e)
-  # no other stores (comprehension variables, walrus) may remain
-  if any(isinstance(n, ast.Name) and not isinstance(n.ctx, ast.Load) for n in ast.walk(e)):
+  # no other stores may remain, except the variables of comprehensions (their
+  # scope travels with the expression; the caller checks that no argument
+  # mentions one of them)
+  comp = {x.id for c in ast.walk(e) if isinstance(c, ast.comprehension)
+          for x in ast.walk(c.target) if isinstance(x, ast.Name)}
+  if any(isinstance(n, ast.Name) and not isinstance(n.ctx, ast.Load) and n.id not in comp
+         for n in ast.walk(e)) or _has(e, (ast.NamedExpr, ast.Lambda)):
     return None
   return e
 
@@ -891,7 +911,13 @@ class _Inliner:
       return self.helpers_mod[f.id], False
     if isinstance(f, ast.Attribute) and isinstance(f.value, ast.Name) and \
         f.value.id == 'self' and cls is not None and f.attr in self.helpers_cls.get(cls, {}):
-      return self.helpers_cls[cls][f.attr], True
+      h = self.helpers_cls[cls][f.attr]
+      return h, not _is_static(h)
+    # ClassName._helper(...) for a static helper of that class
+    if isinstance(f, ast.Attribute) and isinstance(f.value, ast.Name) and \
+        f.attr in self.helpers_cls.get(f.value.id, {}) and _is_static(
+            self.helpers_cls[f.value.id][f.attr]):
+      return self.helpers_cls[f.value.id][f.attr], False
     return None, False
 
   def block(self, stmts, cls):
@@ -978,6 +1004,11 @@ class _Inliner:
         bound = _bind(fn, n, is_m)
         if bound is None or not all(_simple(a) for a in bound.values()):
           return n
+        comp = {x.id for c in ast.walk(ex) if isinstance(c, ast.comprehension)
+                for x in ast.walk(c.target) if isinstance(x, ast.Name)}
+        if comp & ({x.id for a in bound.values() for x in ast.walk(a)
+                    if isinstance(x, ast.Name)} | set(bound)):
+          return n        # an argument would be captured by a comprehension variable
         me.count += 1
         e = _Rename({}, bound).visit(ex)
         return ast.copy_location(e, n)
@@ -999,14 +1030,18 @@ def apply(tree, rel):
   rename_back(tree, rel)
   inline_new_constants(tree, rel)
   n = _apply_helpers(tree, rel)
-  _Idioms().visit(tree)
-  fold_lock_blocks(tree)
   import os
-  if os.environ.get('VERIF_NO_ALIAS_PROP') != '1':
-    for f in ast.walk(tree):
-      if isinstance(f, ast.FunctionDef):
-        propagate_aliases(f)
-    ast.fix_missing_locations(tree)
+  for _round in range(2):
+    _Idioms().visit(tree)
+    fold_lock_blocks(tree)
+    done = 0
+    if os.environ.get('VERIF_NO_ALIAS_PROP') != '1':
+      for f in ast.walk(tree):
+        if isinstance(f, ast.FunctionDef):
+          done += propagate_aliases(f)
+      ast.fix_missing_locations(tree)
+    if not done:
+      break
   return n
 
 
@@ -1032,31 +1067,47 @@ class _Idioms(ast.NodeTransformer):
       return _simple(e)          # a plain name / attribute chain: a pure read
     elem_names = {x.id for e in getattr(n.iter, 'elts', []) for x in ast.walk(e)
                   if isinstance(x, ast.Name)}
-    if isinstance(n.iter, (ast.Tuple, ast.List)) and 0 < len(n.iter.elts) <= 8 and all(
-        _elem_ok(e) for e in n.iter.elts) and isinstance(n.target, ast.Name) and \
+    # targets: one name, or a tuple of names matched against literal rows
+    tnames = None
+    if isinstance(n.target, ast.Name):
+      tnames = [n.target.id]
+    elif isinstance(n.target, (ast.Tuple, ast.List)) and n.target.elts and all(
+        isinstance(t, ast.Name) for t in n.target.elts):
+      tnames = [t.id for t in n.target.elts]
+    rows = None
+    if tnames and isinstance(n.iter, (ast.Tuple, ast.List)) and 0 < len(n.iter.elts) <= 8:
+      if len(tnames) == 1:
+        rows = [[e] for e in n.iter.elts]
+      elif all(isinstance(e, (ast.Tuple, ast.List)) and len(e.elts) == len(tnames)
+               for e in n.iter.elts):
+        rows = [list(e.elts) for e in n.iter.elts]
+    if rows is not None and len(set(tnames)) == len(tnames) and all(
+        _elem_ok(c) for r in rows for c in r) and \
         not n.orelse and len(n.body) <= 6 and not any(
             isinstance(x, (ast.Break, ast.Continue, ast.FunctionDef, ast.Lambda,
                            ast.ClassDef, ast.Yield, ast.YieldFrom))
-            or (isinstance(x, ast.Name) and (x.id == n.target.id or x.id in elem_names)
+            or (isinstance(x, ast.Name) and (x.id in tnames or x.id in elem_names)
                 and not isinstance(x.ctx, ast.Load))
             for b in n.body for x in ast.walk(b)):
-      v = n.target.id
       out = []
-      for e in n.iter.elts:
+      for row in rows:
+        m = dict(zip(tnames, row))
+
         class R(ast.NodeTransformer):
           def visit_Name(self, x):
-            if x.id == v and isinstance(x.ctx, ast.Load):
-              return ast.copy_location(copy.deepcopy(e), x)
+            if x.id in m and isinstance(x.ctx, ast.Load):
+              return ast.copy_location(copy.deepcopy(m[x.id]), x)
             return x
         for b in n.body:
           out.append(R().visit(copy.deepcopy(b)))
       fn = self._fns[-1] if getattr(self, '_fns', None) else None
-      loads = lambda root: sum(1 for x in ast.walk(root) if isinstance(x, ast.Name)
-                               and x.id == v and isinstance(x.ctx, ast.Load))
-      if fn is None or loads(fn) > loads(n):
-        # the variable is read after the loop: it keeps its last value
-        out.append(ast.Assign(targets=[ast.Name(id=v, ctx=ast.Store())],
-                              value=copy.deepcopy(n.iter.elts[-1])))
+      for v, last in zip(tnames, rows[-1]):
+        loads = lambda root, v=v: sum(1 for x in ast.walk(root) if isinstance(x, ast.Name)
+                                      and x.id == v and isinstance(x.ctx, ast.Load))
+        if fn is None or loads(fn) > loads(n):
+          # the variable is read after the loop: it keeps its last value
+          out.append(ast.Assign(targets=[ast.Name(id=v, ctx=ast.Store())],
+                                value=copy.deepcopy(last)))
       res = []
       for st in out:
         ast.copy_location(st, n)
@@ -1064,6 +1115,35 @@ class _Idioms(ast.NodeTransformer):
         r = self.visit(st)
         res.extend(r if isinstance(r, list) else [r])
       return res
+    self.generic_visit(n)
+    return n
+
+  def visit_Assign(self, n):
+    # X = functools.reduce(operator.or_, (E for v in IT), INIT)
+    #   ==  X = INIT; for v in IT: X |= E      (| on values without __ior__, or
+    #       on a fresh INIT set: the same result either way)
+    c = n.value
+    if len(n.targets) == 1 and isinstance(n.targets[0], ast.Name) and isinstance(
+        c, ast.Call) and ast.unparse(c.func) in ('functools.reduce', 'reduce') and \
+        len(c.args) == 3 and not c.keywords and ast.unparse(c.args[0]) in (
+            'operator.or_', 'operator.ior') and isinstance(
+                c.args[1], (ast.GeneratorExp, ast.ListComp)) and \
+        len(c.args[1].generators) == 1 and not c.args[1].generators[0].ifs and \
+        not c.args[1].generators[0].is_async:
+      g = c.args[1].generators[0]
+      x = n.targets[0].id
+      if not any(isinstance(y, ast.Name) and y.id == x for y in ast.walk(c)):
+        init = ast.Assign(targets=[ast.Name(id=x, ctx=ast.Store())], value=c.args[2])
+        loop = ast.For(target=g.target, iter=g.iter, body=[ast.AugAssign(
+            target=ast.Name(id=x, ctx=ast.Store()), op=ast.BitOr(),
+            value=c.args[1].elt)], orelse=[])
+        out = []
+        for st in (init, loop):
+          ast.copy_location(st, n)
+          ast.fix_missing_locations(st)
+          r = self.visit(st)
+          out.extend(r if isinstance(r, list) else [r])
+        return out
     self.generic_visit(n)
     return n
 
@@ -1131,6 +1211,20 @@ class _Idioms(ast.NodeTransformer):
     return n
 
   def visit_Call(self, n):
+    # operator.attrgetter('a', 'b')(X)  ==  (X.a, X.b);  attrgetter('a')(X) == X.a
+    if isinstance(n.func, ast.Call) and ast.unparse(n.func.func) == 'operator.attrgetter' \
+        and n.func.args and not n.func.keywords and len(n.args) == 1 and not n.keywords \
+        and _simple(n.args[0]) and all(
+            isinstance(a, ast.Constant) and isinstance(a.value, str) and all(
+                p.isidentifier() for p in a.value.split('.')) for a in n.func.args):
+      def chain(path):
+        e = copy.deepcopy(n.args[0])
+        for part in path.split('.'):
+          e = ast.Attribute(value=e, attr=part, ctx=ast.Load())
+        return e
+      parts = [chain(a.value) for a in n.func.args]
+      new = parts[0] if len(parts) == 1 else ast.Tuple(elts=parts, ctx=ast.Load())
+      return self.visit(ast.fix_missing_locations(ast.copy_location(new, n)))
     # tuple(E(v) for v in ('a', 'b'))  ==  (E('a'), E('b'))
     if isinstance(n.func, ast.Name) and n.func.id in ('tuple', 'list') and \
         len(n.args) == 1 and not n.keywords and isinstance(
@@ -1289,17 +1383,23 @@ def propagate_aliases(fn):
   for i, st in enumerate(list(fn.body)):
     if isinstance(st, ast.Assign) and len(st.targets) == 1 and isinstance(
         st.targets[0], ast.Name) and stores.get(st.targets[0].id) == 1 and \
-        st.targets[0].id not in params and isinstance(
-            st.value, (ast.Attribute, ast.Subscript)) and _pure_chain(st.value, roots):
+        st.targets[0].id not in params and ((isinstance(
+            st.value, (ast.Attribute, ast.Subscript)) and _pure_chain(st.value, roots))
+                                            or (isinstance(st.value, ast.Tuple) and st.value.elts
+                                                and all(isinstance(x, (ast.Attribute, ast.Subscript))
+                                                        and _pure_chain(x, roots)
+                                                        for x in st.value.elts))):
       name = st.targets[0].id
       # the chain must not be written through between definition and uses:
       # accept only if no statement of the function assigns an attribute /
       # subscript whose text equals a prefix of the chain
-      chain = ast.unparse(st.value)
+      chains = [ast.unparse(x) for x in (
+          st.value.elts if isinstance(st.value, ast.Tuple) else [st.value])]
       clobber = False
       for n in ast.walk(fn):
         if isinstance(n, (ast.Attribute, ast.Subscript)) and isinstance(
-            n.ctx, (ast.Store, ast.Del)) and chain.startswith(ast.unparse(n)):
+            n.ctx, (ast.Store, ast.Del)) and any(
+                chain.startswith(ast.unparse(n)) for chain in chains):
           clobber = True
       if clobber:
         continue
